@@ -302,6 +302,12 @@ ConfigsHang ==
         ma \in {2, 3}, mu \in {None, 1, 2}, d \in {3, 4, Inf}, bu \in {None, 1},
         ha \in BOOLEAN, ab \in BOOLEAN, hk \in BOOLEAN }
 
+ConfigsHangT ==
+    { [Base EXCEPT !.maxAtt = ma, !.rc = TRUE, !.maxUnk = mu, !.D = d, !.lim = [NoLim EXCEPT ![T] = lt],
+                   !.budget = bu, !.handler = ha, !.abort = ab, !.hooks = hk, !.bsleep = hk] :
+        ma \in {2, 3, 4}, mu \in {None, 1, 2}, lt \in {None, 1}, d \in {3, 4, 5, 6, Inf}, bu \in {None, 1},
+        ha \in BOOLEAN, ab \in BOOLEAN, hk \in BOOLEAN }
+
 \* ---- the full product, explored by random simulation -------------------------------------
 OutsFull == {OkOut} \cup FailOuts({"exc", "res"}, {T, R, U, P}, {None, 2})
             \cup {Out("abort", "-", None), Out("kbd", "-", None), Out("cancel", "-", None),
